@@ -136,6 +136,10 @@ class SymEval:
                 if q in self.seed:
                     return S.lift(self.seed[q])
                 return S.sym(self.rename.get(q, q))
+            if head == self.selfname and len(parts) == 1 and self.cls is not None:
+                cv = self._class_constant(parts[0])
+                if cv is not None:
+                    return cv
             if head == self.selfname and len(parts) == 1 and self.cls is not None and self.inline_props:
                 m = self.prog.find_method(self.cls, parts[0])
                 if m is not None and m.is_property and not m.is_abstract and self.depth < 4:
@@ -271,6 +275,34 @@ class SymEval:
                 return "%s[%s]" % (n.value.id, S.canon(idx))
         return None
 
+    def _class_constant(self, attr):
+        """value of a class-level literal (`NAME = <tuple / number literal>` in the class body, searched along the MRO),
+        unless some method of the family assigns the attribute on the instance / class"""
+        try:
+            mro = self.prog.mro(self.cls)
+        except Exception:
+            return None
+        for c in mro:
+            node = getattr(c, "node", None)
+            if node is None:
+                continue
+            for st in node.body:
+                if isinstance(st, ast.Assign):
+                    names = []
+                    for t in st.targets:
+                        names.extend(x.id for x in (t.elts if isinstance(t, ast.Tuple) else [t]) if isinstance(x, ast.Name))
+                    if attr in names:
+                        if not _is_literal(st.value):
+                            return None
+                        if self.prog.has_attr_store(self.cls, attr) if hasattr(self.prog, "has_attr_store") else _assigned_on_instance(self.prog, self.cls, attr):
+                            return None
+                        v = self.expr(st.value)
+                        if len(st.targets) == 1 and isinstance(st.targets[0], ast.Tuple):
+                            idx = [x.id for x in st.targets[0].elts if isinstance(x, ast.Name)].index(attr)
+                            return _getitem(v, S.lift(idx))
+                        return v
+        return None
+
     def e_Subscript(self, n):
         k = self._elem_key(n)
         if k is not None and k in self.env:
@@ -279,12 +311,7 @@ class SymEval:
         if base.op == "call" and base.args[0] == "stored":
             base = base.args[1]
         idx = self.expr(n.slice)
-        if base.op == "call" and base.args[0] in ("tuple", "list") and S.is_num(idx):
-            i = int(idx.value)
-            elts = base.args[1:]
-            if -len(elts) <= i < len(elts):
-                return elts[i]
-        return S.call("getitem", base, idx)
+        return _getitem(base, idx)
 
     def e_Lambda(self, n):
         return S.unknown("lambda")
@@ -452,7 +479,7 @@ class SymEval:
                     self.assign_target(e, x)
             else:
                 for i, e in enumerate(t.elts):
-                    self.assign_target(e, S.call("getitem", v, S.lift(i)))
+                    self.assign_target(e, _getitem(v, S.lift(i)))
         elif isinstance(t, ast.Subscript):
             # in-place element store: remember the element, mark the container as written
             if isinstance(t.value, ast.Name) and ((isinstance(t.slice, ast.Slice) and t.slice.lower is None and t.slice.upper is None and t.slice.step is None)
@@ -698,6 +725,15 @@ class SymEval:
                     self.env[v] = S.unknown("after-loop:" + v)
                     return False
 
+        if it.op == "call" and it.args[0] in ("tuple", "list") and 1 <= len(it.args) - 1 <= 16 and not st.orelse \
+                and not any(isinstance(x, (ast.Break, ast.Continue)) for b in st.body for x in ast.walk(b)):
+            # a loop over a literal sequence: unrolled, element by element
+            for elem in it.args[1:]:
+                self.assign_target(st.target, elem)
+                if self.block(st.body):
+                    return True
+            return False
+
         def bind():
             names = list(target_names(st.target))
             if isinstance(st.target, ast.Name) and it.op == "call" and it.args[0] == "range":
@@ -764,6 +800,40 @@ class SymEval:
         """path condition (conjunction of the branch tests taken) under which ``stmt`` is reached"""
         env, path = self.at(stmt)
         return S.eand(*path) if path else S.TRUE
+
+
+def _is_literal(n):
+    if isinstance(n, ast.Constant):
+        return True
+    if isinstance(n, (ast.Tuple, ast.List)):
+        return all(_is_literal(e) for e in n.elts)
+    if isinstance(n, ast.UnaryOp) and isinstance(n.op, (ast.USub, ast.UAdd)):
+        return _is_literal(n.operand)
+    if isinstance(n, ast.Attribute) and isinstance(n.value, ast.Name) and n.value.id in ("np", "numpy", "math") and n.attr in ("inf", "pi", "e"):
+        return True
+    return False
+
+
+def _assigned_on_instance(prog, cls, attr):
+    for fi in prog.functions.values():
+        if fi.cls is not None and fi.params and (fi.cls is cls or cls in prog.mro(fi.cls) or fi.cls in prog.mro(cls)):
+            s0 = fi.params[0]
+            for n in ast.walk(fi.node):
+                if isinstance(n, ast.Attribute) and isinstance(n.ctx, ast.Store) and n.attr == attr and isinstance(n.value, ast.Name) and n.value.id == s0:
+                    return True
+    return False
+
+
+def _getitem(base, idx):
+    """element selection folded through literal tuples and conditional expressions"""
+    if base.op == "call" and base.args[0] in ("tuple", "list") and S.is_num(idx) and idx.value.denominator == 1:
+        i = int(idx.value)
+        elts = base.args[1:]
+        if -len(elts) <= i < len(elts):
+            return elts[i]
+    if base.op == "cond" and S.is_num(idx):
+        return S.cond(base.args[0], _getitem(base.args[1], idx), _getitem(base.args[2], idx))
+    return S.call("getitem", base, idx)
 
 
 def _load(t):
